@@ -7,6 +7,7 @@ import (
 	"fmt"
 	"hash/fnv"
 	"net/url"
+	"os"
 	"runtime"
 	"sort"
 	"strings"
@@ -323,6 +324,9 @@ func tapBubble(c *harness.Ctx) {
 	if len(history) >= 4 {
 		c.Probe("four-or-more-treecache-events")
 	}
+	if f := os.Getenv("S3_DUMP"); f != "" {
+		_ = os.WriteFile(f, []byte(strings.Join(z.Trace(), "\n")+"\n"), 0o644)
+	}
 	// convergence (measured): does the view equal the valid announcements now in ZooKeeper?
 	var now []tapEvent
 	for n, data := range z.Children(zkPath) {
@@ -368,6 +372,10 @@ func tapBubble(c *harness.Ctx) {
 	h := fnv.New64a()
 	for _, l := range z.Trace() {
 		h.Write([]byte(l))
+	}
+	if f := os.Getenv("S3_DUMP"); f != "" {
+		// debugging aid: the simulated ensemble's trace of this run
+		_ = os.WriteFile(f, []byte(strings.Join(z.Trace(), "\n")+"\n"), 0o644)
 	}
 	for _, e := range history {
 		h.Write([]byte(e.path))
